@@ -92,6 +92,19 @@ func (k *kctx) localMethod(name string) *ast.FuncDecl {
 	return found
 }
 
+// fieldMethod: an unexported method that is declared exactly once in this package (whatever its receiver type), for a
+// call on a FIELD of the current receiver (`h.k.helper(...)` inside a method of Hooks whose field k is the Keeper):
+// the callee's receiver is bound to the field's value, so provenance strings read as if the body stood in the caller
+func (k *kctx) fieldMethod(name string) *ast.FuncDecl {
+	if k.pkg == nil || !unexported(name) || effects[name] || opaqueMethods[name] != nil || stateReads[name] {
+		return nil
+	}
+	if ds := k.pkg.methods[name]; len(ds) == 1 {
+		return ds[0]
+	}
+	return nil
+}
+
 func (k *kctx) localFunc(name string) *ast.FuncDecl {
 	if k.pkg == nil || effects[name] || opaqueMethods[name] != nil {
 		return nil
@@ -134,7 +147,12 @@ func (k *kctx) rollback(s snapshot, e *env) {
 
 // tryInline evaluates the call by executing the callee's body on the argument values.
 func (k *kctx) tryInline(fd *ast.FuncDecl, recv *value, x *ast.CallExpr, e *env, want int) (res []*value, ok bool) {
-	if len(k.inlineStack) >= 8 || fd.Type.Params.NumFields() != len(x.Args) || x.Ellipsis.IsValid() {
+	variadic := false
+	if n := len(fd.Type.Params.List); n > 0 {
+		_, variadic = fd.Type.Params.List[n-1].Type.(*ast.Ellipsis)
+	}
+	np := fd.Type.Params.NumFields()
+	if len(k.inlineStack) >= 8 || x.Ellipsis.IsValid() || (!variadic && np != len(x.Args)) || (variadic && len(x.Args) < np-1) {
 		return nil, false
 	}
 	for _, n := range k.inlineStack {
@@ -179,9 +197,18 @@ func (k *kctx) tryInline(fd *ast.FuncDecl, recv *value, x *ast.CallExpr, e *env,
 	i := 0
 	for _, f := range fd.Type.Params.List {
 		_, ptr := f.Type.(*ast.StarExpr)
-		_, ell := f.Type.(*ast.Ellipsis)
-		if ell {
-			k.refuse(f, "variadic helper")
+		if _, ell := f.Type.(*ast.Ellipsis); ell {
+			// `rest ...T`: the remaining arguments (already evaluated in the caller, left to right) travel as one opaque
+			// value; the helper may only hand it on (`g(a, rest...)`).  A number passed this way is not an output any more,
+			// so the generated definition can only lose outputs against the direct call, never gain or change one.
+			if len(f.Names) != 1 {
+				k.refuse(f, "variadic helper with unnamed parameter")
+			}
+			if f.Names[0].Name != "_" {
+				ce.vars[f.Names[0].Name] = &value{t: tOpaque, prov: "variadic", src: "variadic"}
+			}
+			i = len(args)
+			continue
 		}
 		pt := k.typeOf(f.Type)
 		for _, n := range f.Names {
